@@ -2,7 +2,11 @@
 //! `verif_hooks::cluster_worker::WorkerRig`: real merge channel, real `apply_metadata_update`, reject-all host filter so
 //! nothing touches the network) over histories of producer merges interleaved with consumer catch-ups.
 //!
-//! Ops: `S1` (only as first op) a `ClientRoutesAddressTranslator` is configured as client-routes subscriber;
+//! Ops: header ops (only at the start, in this order): `A1` NO host filter - every node of a topology is enabled and gets a
+//! REAL connection pool towards 127.1.<tag>>8>.<tag&255>:9042, where nothing listens (refused at once) unless an
+//! `L<tag>` op started a listener there that accepts and closes at once (the handshake fails), so
+//! `apply_metadata_update` really waits at `wait_until_all_pools_are_initialized()`; `S1` a
+//! `ClientRoutesAddressTranslator` is configured as client-routes subscriber;
 //! `F<tag>`/`R<tag>` merge_metadata without/with a refresh request (no client routes configured), `G<tag>/<routes>` /
 //! `H<tag>/<routes>` the same with client routes, `T<tag>` merge_topology_update, `C<entries>`
 //! merge_client_routes_update, `U<addr>`/`W<addr>` up/down hint (syntax as in the `slot` cases);
@@ -10,7 +14,7 @@
 //! until that is taken as well - `recv` is only called again after `apply_metadata_update` returned, so by then the
 //! first update has been processed completely - and prints what is PUBLISHED:
 //! `pub=<host ids of known_nodes> new=<0|1: a new ClusterState object was published> ok=<refresh ids answered Ok>
-//! err=<…> drop=<…>`.
+//! err=<…> drop=<…> routes=<what the subscriber holds: host.conn.port,… | - | none>`.
 //! The runtime is single-threaded, so the worker only runs while the harness awaits inside `K`: everything merged
 //! between two `K`s reaches the consumer as ONE update, and the case is deterministic (compared with
 //! Model/ClusterConsumer.lean).
@@ -19,7 +23,8 @@
 //! answered"): after each catch-up the published `known_nodes` are exactly the peers of the LATEST topology merged so
 //! far (full or partial fetch, whatever was merged with it); a new state was published iff a topology was merged since
 //! the previous catch-up; every refresh request attached since then has been answered `Ok`, none dropped; the worker
-//! takes a pending update within 60 s.
+//! takes a pending update - i.e. finishes applying the previous one, unreachable nodes included - within 20 s; the
+//! subscriber holds exactly the client routes of the latest full snapshot with the later partial updates applied.
 use crate::rng::Rng;
 use crate::{Ctx, Tier};
 use scylla::verif_hooks::cluster_worker::WorkerRig;
@@ -52,6 +57,11 @@ fn parse_route_entries(s: &str, allow_removal: bool) -> Option<Vec<(u64, u16, Op
         .collect()
 }
 
+/// Does the full fetch at index `k` carry client routes (G/H) - as opposed to F/R, recorded with the marker entry?
+fn routes_configured_at(pending: &[(bool, Vec<(u64, u16, Option<u16>)>)], k: usize) -> bool {
+    !(pending[k].1.len() == 1 && pending[k].1[0] == (u64::MAX, 0, None))
+}
+
 fn list(xs: &[u64], sep: &str) -> String {
     if xs.is_empty() { "-".into() } else { xs.iter().map(|x| x.to_string()).collect::<Vec<_>>().join(sep) }
 }
@@ -63,7 +73,7 @@ async fn wait_taken(rig: &mut WorkerRig) -> Result<bool, ()> {
         if !rig.slot_full()? {
             return Ok(true);
         }
-        if t0.elapsed() > Duration::from_secs(60) {
+        if t0.elapsed() > Duration::from_secs(20) {
             return Ok(false);
         }
         tokio::time::sleep(Duration::from_micros(50)).await;
@@ -72,10 +82,20 @@ async fn wait_taken(rig: &mut WorkerRig) -> Result<bool, ()> {
 
 pub fn run_worker(body: &str, ctx: &mut Ctx) -> String {
     let ops: Vec<&str> = body.split(';').filter(|o| !o.is_empty()).collect();
-    let with_subscriber = ops.first() == Some(&"S1");
-    let rt = tokio::runtime::Builder::new_current_thread().enable_time().build().unwrap();
+    let accepting = ops.first() == Some(&"A1");
+    let with_subscriber = ops.get(accepting as usize) == Some(&"S1");
+    let rt = tokio::runtime::Builder::new_current_thread().enable_all().build().unwrap();
     rt.block_on(async {
-        let mut rig = WorkerRig::spawn(INITIAL_TAG, with_subscriber).await;
+        let mut rig = if accepting {
+            WorkerRig::spawn_accepting(INITIAL_TAG, with_subscriber).await
+        } else {
+            WorkerRig::spawn(INITIAL_TAG, with_subscriber).await
+        };
+        let mut listeners: Vec<tokio::task::JoinHandle<()>> = Vec::new();
+        // oracle: the client routes the subscriber must hold (None = no full snapshot / update delivered yet)
+        let mut sub_routes: std::collections::BTreeMap<(u64, u16), u16> = Default::default();
+        // routes merged since the last catch-up, in order: (is_full_snapshot, entries)
+        let mut pending_routes: Vec<(bool, Vec<(u64, u16, Option<u16>)>)> = Vec::new();
         // oracle state
         let mut latest: u64 = INITIAL_TAG; // latest topology merged so far
         let mut topo_since_k = false;
@@ -93,9 +113,31 @@ pub fn run_worker(body: &str, ctx: &mut Ctx) -> String {
         for (i, op) in ops.iter().enumerate() {
             let (c, arg) = op.split_at(1);
             match c {
-                "S" => {
-                    if i != 0 || (arg != "1" && arg != "0") {
+                "A" => {
+                    if i != 0 || arg != "1" {
                         return "bad-case".to_owned();
+                    }
+                    out.push("-".into());
+                }
+                "S" => {
+                    if i != accepting as usize || arg != "1" {
+                        return "bad-case".to_owned();
+                    }
+                    out.push("-".into());
+                }
+                "L" => {
+                    // a listener at the address of topology `tag`'s node: accepts and closes at once
+                    let Ok(tag) = arg.parse::<u64>() else { return "bad-case".to_owned() };
+                    let addr = std::net::SocketAddr::from(([127, 1, (tag >> 8) as u8, tag as u8], 9042));
+                    match tokio::net::TcpListener::bind(addr).await {
+                        Ok(l) => listeners.push(tokio::spawn(async move {
+                            loop {
+                                if let Ok((sock, _)) = l.accept().await {
+                                    drop(sock);
+                                }
+                            }
+                        })),
+                        Err(_) => return "e2e-skip cannot-bind-listener".to_owned(),
                     }
                     out.push("-".into());
                 }
@@ -110,7 +152,10 @@ pub fn run_worker(body: &str, ctx: &mut Ctx) -> String {
                                 return "senderror".to_owned();
                             }
                             Ok(false) => {
-                                ctx.fail(format!("op {}: the cluster worker did not take a pending update within 60 s (lost wake-up / hang)", i));
+                                ctx.fail(format!(
+                                    "op {}: the cluster worker did not take a pending update within 20 s: it never finished applying the previous one (parked at wait_until_all_pools_are_initialized?) or lost a wake-up",
+                                    i
+                                ));
                                 return "hang".to_owned();
                             }
                             Ok(true) => {}
@@ -139,20 +184,76 @@ pub fn run_worker(body: &str, ctx: &mut Ctx) -> String {
                     if ok != outstanding {
                         ctx.fail(format!("op {}: refresh requests answered {:?}, attached since the last catch-up {:?}", i, ok, outstanding));
                     }
+                    // what the subscriber must hold now: a full fetch's snapshot (if it carries routes) replaces, it
+                    // subsumes the partial updates merged before it; later partial updates are applied on top
+                    let observed_routes = rig.subscriber_routes();
+                    if with_subscriber {
+                        // the slot's update: the last full snapshot since the previous catch-up, if any, decides
+                        let last_full = pending_routes.iter().rposition(|(full, _)| *full);
+                        let start = match last_full {
+                            Some(k) => {
+                                // routes of the full fetch + the later partial updates went into that metadata
+                                if routes_configured_at(&pending_routes, k) {
+                                    sub_routes.clear();
+                                    for (h, c, p) in &pending_routes[k].1 {
+                                        sub_routes.insert((*h, *c), p.unwrap());
+                                    }
+                                    k + 1
+                                } else {
+                                    pending_routes.len() // a full fetch without client routes: later updates are ignored
+                                }
+                            }
+                            None => 0,
+                        };
+                        for (_, entries) in &pending_routes[start.min(pending_routes.len())..] {
+                            let upd: std::collections::BTreeMap<(u64, u16), Option<u16>> = entries.iter().map(|&(h, c, p)| ((h, c), p)).collect();
+                            for (k, p) in upd {
+                                match p {
+                                    Some(p) => {
+                                        sub_routes.insert(k, p);
+                                    }
+                                    None => {
+                                        sub_routes.remove(&k);
+                                    }
+                                }
+                            }
+                        }
+                        let want: Vec<(u64, u16, Option<u16>)> = sub_routes.iter().map(|(k, p)| (k.0, k.1, Some(*p))).collect();
+                        if observed_routes.as_ref() != Some(&want) {
+                            ctx.fail(format!(
+                                "op {}: the client-routes subscriber holds {:?}; the routes merged in by the producer amount to {:?} (a client-routes update was not delivered)",
+                                i, observed_routes, want
+                            ));
+                        }
+                    } else if observed_routes.is_some() {
+                        ctx.fail(format!("op {}: routes reported although no subscriber is configured", i));
+                    }
+                    pending_routes.clear();
                     outstanding.clear();
                     topo_since_k = false;
+                    let routes_str = match &observed_routes {
+                        None => "none".to_string(),
+                        Some(v) if v.is_empty() => "-".to_string(),
+                        Some(v) => v
+                            .iter()
+                            .map(|(h, c, p)| format!("{}.{}.{}", h, c, p.map(|p| p.to_string()).unwrap_or_else(|| "x".into())))
+                            .collect::<Vec<_>>()
+                            .join(","),
+                    };
                     out.push(format!(
-                        "pub={} new={} ok={} err={} drop={}",
+                        "pub={} new={} ok={} err={} drop={} routes={}",
                         list(&published, "+"),
                         new as u8,
                         list(&ok, ","),
                         list(&err, ","),
-                        list(&dropped, ",")
+                        list(&dropped, ","),
+                        routes_str
                     ));
                 }
                 "C" => {
                     let Some(entries) = parse_route_entries(arg, true) else { return "bad-case".to_owned() };
                     sent!(rig.merge_client_routes(&entries), i);
+                    pending_routes.push((false, entries.clone()));
                     out.push("-".into());
                 }
                 "G" | "H" => {
@@ -163,6 +264,7 @@ pub fn run_worker(body: &str, ctx: &mut Ctx) -> String {
                     match rig.merge_metadata(tag, c == "H", Some(&entries)) {
                         Err(()) => sent!(Err::<(), ()>(()), i),
                         Ok(id) => {
+                            pending_routes.push((true, entries.iter().map(|&(h, c, p)| (h, c, Some(p))).collect()));
                             latest = tag;
                             topo_since_k = true;
                             match id {
@@ -181,6 +283,9 @@ pub fn run_worker(body: &str, ctx: &mut Ctx) -> String {
                         "F" | "R" => match rig.merge_metadata(n, c == "R", None) {
                             Err(()) => sent!(Err::<(), ()>(()), i),
                             Ok(id) => {
+                                // a full fetch WITHOUT client routes configured: marker entry (x) so that the
+                                // reference knows nothing is delivered from it or from updates merged into it
+                                pending_routes.push((true, vec![(u64::MAX, 0, None)]));
                                 latest = n;
                                 topo_since_k = true;
                                 match id {
@@ -209,6 +314,9 @@ pub fn run_worker(body: &str, ctx: &mut Ctx) -> String {
                     }
                 }
             }
+        }
+        for l in listeners {
+            l.abort();
         }
         out.join(";")
     })
@@ -239,7 +347,7 @@ fn exhaustive(depth: usize, emit: &mut dyn FnMut(String)) {
             ops.pop();
         }
     }
-    for prefix in ["", "S1;"] {
+    for prefix in ["", "S1;", "A1;", "A1;S1;"] {
         rec(prefix, &mut Vec::new(), depth, emit);
     }
 }
@@ -248,6 +356,9 @@ fn random_case(rng: &mut Rng, len: usize) -> String {
     let (wf, wg, wt, wh, wc, wk) = *rng.pick(&[(3u64, 2u64, 3u64, 2u64, 3u64, 3u64), (1, 1, 6, 1, 4, 3), (4, 2, 1, 1, 1, 2), (1, 3, 3, 0, 6, 3), (0, 0, 5, 1, 5, 4)]);
     let mut tag = 0u64;
     let mut ops: Vec<String> = Vec::new();
+    if rng.chance(1, 2) {
+        ops.push("A1".into());
+    }
     if rng.chance(2, 3) {
         ops.push("S1".into());
     }
